@@ -27,7 +27,7 @@ func init() {
 			"replicas of a shard hold the same documents; total/histogram/aggregations are judged only when the layout partitions the corpus (duplicated placements judge IDs and paging only)",
 			"reference model over the union corpus",
 		},
-		Batches: tiered(48, 480),
+		Batches: tiered(144, 3840),
 		Run:     runC05,
 		Timeout: timeoutFor(8*time.Minute, 40*time.Minute),
 	})
